@@ -10,7 +10,7 @@ from checks.common import *
 REV = os.environ.get("VERIF_DB_REV", "11111111")
 
 
-def run_db(ctx, profile, n, steps, dump_every=8, variants="", maintenance=False, rev=None, sub="db", seed_off=0):
+def run_db(ctx, profile, n, steps, dump_every=8, variants="", maintenance=False, rev=None, sub="db", seed_off=0, watchdog_ms=0):
     exe, dlog = vlib.build_driver()
     if exe is None:
         raise RuntimeError("driver build failed: " + dlog)
@@ -26,7 +26,20 @@ def run_db(ctx, profile, n, steps, dump_every=8, variants="", maintenance=False,
         cmd += ["--variants", variants]
     if maintenance:
         cmd += ["--maintenance", "1"]
+    if watchdog_ms:
+        cmd += ["--watchdog-ms", str(watchdog_ms)]
+        for f in ("cases.txt", "impl.txt", "oracle.txt", "stats.json", "model.txt"):
+            if os.path.exists(os.path.join(w, f)):
+                os.remove(os.path.join(w, f))
     rc, out = vlib.sh(cmd, timeout=3000)
+    if rc == 3 and watchdog_ms:
+        # C19: the per-step watchdog killed the harness inside a query that did not return; the only
+        # output is the oracle line `timeout step=... history=[...]` (partial run = failure of class timeout)
+        lines = read_lines(os.path.join(w, "oracle.txt")) if os.path.exists(os.path.join(w, "oracle.txt")) else []
+        if not lines:
+            lines = ["timeout (watchdog exit, no oracle line) " + out[-500:]]
+        return dict(cases=0, disagreements=[], failures=[dict(cls=l.split(" ")[0], what=l[:6000]) for l in lines],
+                    dist={}, histories=0, nontrivial=0, samples=[], partial=True)
     if rc != 0:
         raise RuntimeError("harness failed: " + out[-2000:])
     rc, err = run_driver(exe, os.path.join(w, "cases.txt"), os.path.join(w, "model.txt"))
